@@ -269,6 +269,9 @@ def mk_config(engine, f, shapes, row, rng, bvals):
         if lv['keymap'][1]:
             nested['v1_field_to_alias'] = {'my_val': 'nk'}
     shape = list(shapes[lv['shape']])
+    if engine == 'v1load':
+        # open finding F18 (C02): v1 drops the parent index for a fixed-arity tuple directly inside a fixed-arity tuple
+        shape = ['vtuple' if (h == 'tuple' and i and shape[i - 1] == 'tuple') else h for i, h in enumerate(shape)]
     probe = lv['probe']
     if 'union' in shape:           # C13 domain: the member is tagged and reads/writes the same tag key as the Union
         nested['tag'] = 'NT'
@@ -341,8 +344,9 @@ def in_region_F22(cfg):
     return own is not None and bool(own) != provided
 
 
-def expected_dump(cfg):
-    e = effective(cfg['nested'], cfg['root'])
+def expected_dump(cfg, e=None):
+    if e is None:
+        e = effective(cfg['nested'], cfg['root'])
     union = None
     if cfg['probe'] == 'union':
         items = [[{'str': 'x'}, {'int': '1'}]]
@@ -362,15 +366,15 @@ def norm_dump(nested):
     return [(k['str'], v) for k, v in nested.get('dict', [])]
 
 
-def check_dump(cfg, res):
-    """None if the nested part of the dump is as expected under effective, else a description."""
+def check_dump(cfg, res, e=None):
+    """None if the nested part of the dump is as expected under effective (or under the given Meta e), else a description."""
     if res.get('setup'):
         return 'class definition failed: %s %s' % (res['setup']['err'], res['setup'].get('msg'))
     r = res['results'][0]
     if 'err' in r:
         return 'dump raised %s: %s' % (r['err'], (r.get('msg') or '')[:200])
     got = norm_dump(r['ok']['nested'])
-    exp = expected_dump(cfg)
+    exp = expected_dump(cfg, e)
     if sorted(map(json.dumps, got)) != sorted(json.dumps([k, v]) for k, v in exp):
         return 'nested dump %r, expected under effective %r' % (got, exp)
     # the root's own part behaves under the root's own Meta
@@ -381,10 +385,11 @@ def check_dump(cfg, res):
     return None
 
 
-def check_load(cfg, res):
+def check_load(cfg, res, e=None):
     if res.get('setup'):
         return 'class definition failed: %s %s' % (res['setup']['err'], res['setup'].get('msg'))
-    e = effective(cfg['nested'], cfg['root'])
+    if e is None:
+        e = effective(cfg['nested'], cfg['root'])
     for doc, r in zip(cfg['docs'], res['results']):
         if cfg['probe'] == 'union':
             want_ok = bool(e.get('auto_assign_tags'))
@@ -417,10 +422,10 @@ def check_load(cfg, res):
     return None
 
 
-def check(cfg, res):
+def check(cfg, res, e=None):
     if 'runner_error' in res:
         raise RuntimeError('c12 runner failed: %s' % res['runner_error'])
-    return check_dump(cfg, res) if cfg['engine'] == 'dump' else check_load(cfg, res)
+    return check_dump(cfg, res, e) if cfg['engine'] == 'dump' else check_load(cfg, res, e)
 
 
 def gen_configs(ctx):
@@ -437,11 +442,11 @@ def gen_configs(ctx):
             # single-word wrapper keys (n, inner) are spelled the same under these cases; PASCAL would rename them
             bvals['v1_key_case'] = rng.choice([['CAMEL', 'KEBAB'], ['SNAKE', 'CAMEL'], ['KEBAB', 'SNAKE']])
         f, shapes = factors(engine, rng, 6 if quick else 40)
-        rows = pairwise_rows(f, rng, extra_random=40 if quick else 800)
+        rows = pairwise_rows(f, rng, extra_random=40 if quick else 500)
         for row in rows:
             cfgs.append(mk_config(engine, f, shapes, row, rng, bvals))
         if not quick:   # full product shape x recursive on sampled rows
-            for row in rng.sample(rows, 30):
+            for row in rng.sample(rows, 20):
                 for si in range(len(shapes)):
                     for ri in range(3):
                         r2 = dict(row); r2['shape'] = si; r2['recursive'] = ri
@@ -519,13 +524,8 @@ def decode_vector(s, engine):
 
 # --------------------------------------------------------------------------------------
 def check_with(cfg, res, e):
-    """Outcome check against an explicitly given effective Meta e (used for the model's vector)."""
-    saved = effective
-    try:
-        globals()['effective'] = lambda nested, root, _e=e, _n=cfg['nested']: (_e if nested is _n else saved(nested, root))
-        return check(cfg, res)
-    finally:
-        globals()['effective'] = saved
+    """Outcome check against an explicitly given effective Meta e (decoded from the model's behaviour vector)."""
+    return check(cfg, res, e)
 
 
 def in_region_F23(cfg):
